@@ -128,7 +128,7 @@ func propC20(c *Ctx) {
 		c.Check("R20.1", "loadTasks/outer-loop", lt.Pos(), okOuter, "the integration handed to the task is the loop element of AllIntegrations()'s result")
 		okInner := false
 		if lm.withRange != nil {
-			root, _ := fieldChain(lm.withRange.Call.Args[0])
+			root, _ := lm.chain(lm.withRange.Call.Args[0])
 			okInner = lm.isSourceRefElem(root)
 		}
 		c.Check("R20.1", "loadTasks/inner-loop", lt.Pos(), okInner, "one task per element of the integration's Sources")
@@ -138,12 +138,19 @@ func propC20(c *Ctx) {
 		// sc = scByName[scRef.Name] (value of the first lookup); find it through WithSrcName's argument root
 		var scRoot ssa.Value
 		if o := lm.opts["WithSrcName"]; o != nil {
-			scRoot, _ = fieldChain(o.Call.Args[0])
+			scRoot, _ = lm.chain(o.Call.Args[0])
 		}
 		fromLookup := false
 		if scRoot != nil {
-			if a, ok := scRoot.(*ssa.Alloc); ok {
-				if cv := cellValue(a); cv != nil {
+			var cv ssa.Value
+			switch a := scRoot.(type) {
+			case *ssa.Alloc:
+				cv = cellValue(a)
+			case *ssa.Extract:
+				cv = a
+			}
+			if cv != nil {
+				{
 					if e, ok := cv.(*ssa.Extract); ok {
 						if lk, ok := e.Tuple.(*ssa.Lookup); ok {
 							if call, k := resultOf(lk.X); call != nil && k == 0 {
@@ -165,7 +172,7 @@ func propC20(c *Ctx) {
 			good := o != nil
 			if o != nil {
 				for i, fn := range spec.fields {
-					root, chain := fieldChain(o.Call.Args[i])
+					root, chain := lm.chain(o.Call.Args[i])
 					if !chainIs(chain, w.Field("shovel/config", "Source", fn)) || root != scRoot {
 						good = false
 					}
@@ -180,7 +187,7 @@ func propC20(c *Ctx) {
 		// the source client is the one registered under the same name
 		if o := lm.opts["WithSource"]; o != nil {
 			good := false
-			if e, ok := o.Call.Args[0].(*ssa.Extract); ok {
+			if e, ok := lm.val(o.Call.Args[0]).(*ssa.Extract); ok {
 				if lk, ok := e.Tuple.(*ssa.Lookup); ok {
 					root, chain := fieldChain(lk.Index)
 					good = chainIs(chain, fName) && lm.isSourceRefElem(root)
@@ -313,9 +320,13 @@ func propC20(c *Ctx) {
 	}
 	c.Check("R20.3", "Run/lock-first", run.Pos(), lockFirst, "Manager.running is locked before anything else happens in Run")
 	c.Check("R20.3", "Run/unlock-only-by-defer", run.Pos(), deferUnlock != nil && !explicitUnlock, "the lock is released by defer only (held until Run returns)")
+	// the rest on the inlined view of run: the runner loop and the Wait may live in a helper (runAll)
+	rreg := NewRegion(run)
 	var waitCall ssa.CallInstruction
-	for _, ci := range callsNamed(run, "(*sync.WaitGroup).Wait") {
-		waitCall = ci
+	for _, ci := range rreg.Calls() {
+		if _, isCall := ci.(*ssa.Call); isCall && calleeName(ci) == "(*sync.WaitGroup).Wait" {
+			waitCall = ci
+		}
 	}
 	okWait := waitCall != nil
 	if waitCall != nil {
@@ -329,14 +340,14 @@ func propC20(c *Ctx) {
 		}
 		for _, r := range returnsOf(run) {
 			onErr := len(errArm) > 0 && guardedByEdges(run, r, errArm)
-			if !onErr && !dominatesInstr(waitCall, r) {
+			if !onErr && !rreg.Dominates(waitCall, r) {
 				okWait = false
 			}
 		}
 	}
 	c.Check("R20.3", "Run/returns-after-Wait", run.Pos(), okWait, "on the success path Run returns only after wg.Wait()")
 	nGo := 0
-	allInstrs(run, func(in ssa.Instruction) {
+	rreg.AllInstrs(func(in ssa.Instruction) {
 		g, ok := in.(*ssa.Go)
 		if !ok {
 			return
@@ -351,25 +362,54 @@ func propC20(c *Ctx) {
 			return
 		}
 		nGo++
+		gfn := g.Parent()
 		addOK := false
-		for _, ci := range callsNamed(run, "(*sync.WaitGroup).Add") {
-			if n, ok := constInt(ci.Common().Args[1]); ok && n == 1 && ci.Block() == g.Block() && dominatesInstr(ci, g) {
-				addOK = true
+		for _, ci := range callsNamed(gfn, "(*sync.WaitGroup).Add") {
+			arg := ci.Common().Args[1]
+			if n, ok := constInt(arg); ok && n == 1 && ci.Block() == g.Block() && dominatesInstr(ci, g) {
+				addOK = true // one per iteration
+			}
+			// or all at once: Add(len(X)) before a loop over X that starts one goroutine per element
+			if x, ok := lenArg(arg); ok && dominatesInstr(ci, g) {
+				for _, col := range loopCollections(g) {
+					if sameVar(col, x) || stripConv(col) == stripConv(x) {
+						addOK = true
+					}
+				}
 			}
 		}
 		doneOK := false
 		for _, d := range callsNamed(cf, "(*sync.WaitGroup).Done") {
+			if _, isDefer := d.(*ssa.Defer); isDefer {
+				if hit, _ := reach(entrySite(cf), isInstr(rts[0]), newCuts().addInstr(d)); !hit {
+					doneOK = true // deferred before the task runs: released on every exit
+				}
+				continue
+			}
 			exits, _ := reach(entrySite(cf), isExit, newCuts().addInstr(d))
 			if !exits && dominatesInstr(rts[0], d) {
 				doneOK = true
 			}
 		}
-		c.Check("R20.3", fmt.Sprintf("Run/runner#%d", nGo), g.Pos(), addOK && doneOK, fmt.Sprintf("wg.Add(1) precedes the goroutine in the same iteration (%v); the goroutine calls wg.Done after runTask on every path (%v)", addOK, doneOK))
+		c.Check("R20.3", fmt.Sprintf("Run/runner#%d", nGo), g.Pos(), addOK && doneOK, fmt.Sprintf("the wait group is incremented once per runner before it starts (%v); the goroutine calls wg.Done after runTask on every path (%v)", addOK, doneOK))
 		chOK := false
 		if args := rts[0].Call.Args; len(args) == 3 {
-			k := accessPath(args[2])
-			if p, ok := k.Root.(*ssa.Parameter); ok && k.Path == "" && p.Parent() == run && paramIndex(p) == 2 {
-				chOK = true
+			v := args[2]
+			for i := 0; i < 4; i++ {
+				k := accessPath(v)
+				p, ok := k.Root.(*ssa.Parameter)
+				if !ok || k.Path != "" {
+					break
+				}
+				if p.Parent() == run && paramIndex(p) == 2 {
+					chOK = true
+					break
+				}
+				nv := rreg.Resolve(p)
+				if nv == ssa.Value(p) {
+					break
+				}
+				v = nv
 			}
 		}
 		c.Check("R20.3", fmt.Sprintf("Run/runner#%d-stop-channel", nGo), g.Pos(), chOK, "the runner polls the stop channel this generation was started with (run's parameter), not another one")
